@@ -3,6 +3,7 @@ SPECIFICATION HSpec
 CONSTANTS
   Threads = {1, 2, 3}
   Rounds = 2
+  MoreRounds = {}
   PassiveSpin = 5
   Spurious = TRUE
   WakeOn = 2
